@@ -249,6 +249,30 @@ M("C09", "noninteractive_still_reads", "api/io/input.py",
 M("C09", "debug_gate_off_by_one", "api/io/output.py",
   "        if flags & DEBUG:\n            return self._verbosity >= DEBUG", "        if flags & DEBUG:\n            return self._verbosity >= VERY_VERBOSE")
 
+# ---- C17 ------------------------------------------------------------------------------------
+M("C17", "lenient_forced_off_after_help", "resolver/help_resolver.py",
+  "            config._lenient_args_parsing = lenient_args_parsing", "            config.disable_lenient_args_parsing()")
+M("C17", "lenient_left_on_after_failed_help", "resolver/help_resolver.py",
+  "        try:\n            return super(HelpResolver, self).create_resolved_command(result)\n        finally:\n            # Restore the setting of the command, whatever it was\n            config._lenient_args_parsing = lenient_args_parsing",
+  "        resolved = super(HelpResolver, self).create_resolved_command(result)\n        config._lenient_args_parsing = lenient_args_parsing\n        return resolved")
+M("C17", "border_singleton_shared", "ui/style/border_style.py",
+  "        return copy.copy(cls._none)", "        return cls._none")
+M("C17", "ascii_singleton_shared", "ui/style/border_style.py",
+  "        return copy.copy(cls._ascii)", "        return cls._ascii")
+M("C17", "table_style_singleton", "ui/style/table_style.py",
+  "    def solid(cls):  # type: () -> TableStyle\n        style = TableStyle()", "    def solid(cls):  # type: () -> TableStyle\n        if cls._solid is None:\n            cls._solid = TableStyle()\n        style = cls._solid")
+M("C17", "snippet_cache_by_line_only", "ui/components/exception_trace.py",
+  "                        if (frame, 2, 2) not in self._FRAME_SNIPPET_CACHE:\n                            code_lines = Highlighter(\n                                supports_utf8=io.supports_utf8()\n                            ).code_snippet(frame.file_content, frame.lineno,)\n\n                            self._FRAME_SNIPPET_CACHE[(frame, 2, 2)] = code_lines\n\n                        code_lines = self._FRAME_SNIPPET_CACHE[(frame, 2, 2)]\n",
+  "                        ck = (frame.function, frame.lineno)\n                        if (ck, 2, 2) not in self._FRAME_SNIPPET_CACHE:\n                            code_lines = Highlighter(\n                                supports_utf8=io.supports_utf8()\n                            ).code_snippet(frame.file_content, frame.lineno,)\n\n                            self._FRAME_SNIPPET_CACHE[(ck, 2, 2)] = code_lines\n\n                        code_lines = self._FRAME_SNIPPET_CACHE[(ck, 2, 2)]\n")
+M("C17", "render_consumes_header", "ui/components/table.py",
+  "                rows.pop(0),\n", "                (self._header_row.pop(0), self._header_row.insert(0, 'seen'), rows.pop(0))[2],\n")
+M("C17", "parser_options_leak", "args/default_args_parser.py",
+  "        self._arguments = OrderedDict()\n        self._options = OrderedDict()\n\n        arguments = OrderedDict()",
+  "        self._arguments = OrderedDict()\n\n        arguments = OrderedDict()")
+M("C17", "quiet_sticks_to_application", "config/default_application_config.py",
+  '        if args.has_option_token("--quiet") or args.has_option_token("-q"):\n            io.set_quiet(True)',
+  '        if args.has_option_token("--quiet") or args.has_option_token("-q") or getattr(self, "_was_quiet", False):\n            self._was_quiet = True\n            io.set_quiet(True)')
+
 
 def run_one(m, runs):
     prop, name, path, old, new, expect = m
